@@ -54,7 +54,9 @@ Ltac step_cases c s a s' Hs :=
       [ destruct (items s) as [|?x ?it] eqn:?Hi; [discriminate|]; inversion Hs; subst s'; clear Hs
       | destruct (choose c (tidx s) (lastc s)) as [[[?w ?ti] ?lc]|] eqn:?Hch; [|discriminate];
         destruct (nth_error (slots s) w) as [?sl|] eqn:?Hn; [|discriminate]; inversion Hs; subst s'; clear Hs ]
-    | destruct rem as [|?ch ?rem']; inversion Hs; subst s'; clear Hs
+    | rewrite predraw_spec in Hs; destruct (maxact c <? nactive s) eqn:?Hpre;
+      [ destruct (items s) as [|?x ?it] eqn:?Hi; [discriminate|]; inversion Hs; subst s'; clear Hs
+      | destruct rem as [|?ch ?rem']; inversion Hs; subst s'; clear Hs ]
     | destruct (items s) as [|?x ?it] eqn:?Hi;
       [ rewrite exhausted_spec in Hs; destruct (length (yielded s) =? ndrawn s) eqn:?Hex; [|discriminate];
         inversion Hs; subst s'; clear Hs
